@@ -24,11 +24,11 @@ BCHARS = "0123456789abcdefghijklmnopqrstuvwxyzABCDEFGHIJKLMNOPQRSTUVWXYZ'()+_,-.
 LINEBREAKS = '\r\n\x0b\x0c\x1c\x1d\x1e\x85\u2028\u2029'
 _name_chars = st.characters(exclude_categories=['Cs'], exclude_characters='"' + LINEBREAKS)
 NAME = st.one_of(
-    st.sampled_from(['a', 'b', 'f', 'name', 'a;b', 'x=y', 'a b', 'back\\slash', 'é', '日本', 'a; filename=zz', 'n;', ';n', "q'q", 'a:b', ' lead', 'trail ']),
+    st.sampled_from(['a', 'b', 'f', 'name', 'a;b', 'x=y', 'a b', 'back\\slash', 'é', '日本', 'a; filename=zz', 'n;', ';n', "q'q", 'a:b', ' lead', 'trail ', 'e\u0301', 'a%22b', '%0D%0A']),
     st.text(_name_chars, min_size=1, max_size=8),
     st.text('ab;= \\é:,', min_size=1, max_size=6))
 FILENAME = st.one_of(
-    st.sampled_from(['x.txt', 'x;y.txt', 'a=b.bin', 'with space.dat', 'C:\\dir\\f.txt', 'é.png', 'a; name=q', '.hidden', 'semi;']),
+    st.sampled_from(['x.txt', 'x;y.txt', 'a=b.bin', 'with space.dat', 'C:\\dir\\f.txt', 'é.png', 'a; name=q', '.hidden', 'semi;', 'cafe\u0301.txt', 'A\u030angstro\u0308m', '\u1100\u1161.bin', '\u2126.txt', 'a%22b%0D.txt']),
     st.text(_name_chars, min_size=1, max_size=10))
 CTYPE = st.sampled_from([None, 'text/plain', 'application/octet-stream', 'text/plain; charset=utf-8', 'image/png; a=b; c="d;e"'])
 
